@@ -957,3 +957,40 @@ Qed.
 
 Lemma add_inventory_nil_r a : add_inventory a [] = a.
 Proof. destruct a; reflexivity. Qed.
+
+(* f(sum of inventories) = sum of f(inventory): units(sum(inv)) = sum(units(inv)) etc. *)
+Lemma esum_fold_add_entry g l acc :
+  additive g -> wf acc -> esum g (fold_left add_entry l acc) = esum g acc + esum g l.
+Proof.
+  intros Hg. revert acc. unfold esum at 3. induction l as [|[k0 m0] t IH]; simpl; intros acc Ha; [lia|].
+  rewrite IH by (apply wf_add_position; exact Ha).
+  unfold add_entry, add_position. rewrite esum_add_amount by (try assumption; apply Ha).
+  unfold punits, epos. simpl. destruct k0. simpl. lia.
+Qed.
+
+Lemma esum_add_inventory g a b :
+  additive g -> wf a -> esum g (add_inventory a b) = esum g a + esum g b.
+Proof.
+  intros Hg Ha. destruct a as [|e t]; [reflexivity|].
+  unfold add_inventory. apply esum_fold_add_entry; assumption.
+Qed.
+
+Lemma esum_sum_inv g l : additive g -> Forall wf l -> esum g (sum_inv l) = zsum (esum g) l.
+Proof.
+  intros Hg H. unfold sum_inv.
+  assert (G : forall acc, wf acc -> esum g (fold_left add_inventory l acc) = esum g acc + zsum (esum g) l).
+  { induction H as [|i t Hi Ht IH]; simpl; intros acc Ha; [lia|].
+    rewrite IH by (apply wf_add_inventory; assumption). rewrite esum_add_inventory by assumption. lia. }
+  rewrite G by apply wf_nil. reflexivity.
+Qed.
+
+Theorem reduce_commutes_inventories f l :
+  lot_linear f -> Forall wf l -> inv_eqv (reduce f (sum_inv l)) (sum_inv (map (reduce f) l)).
+Proof.
+  intros [Hc Hn] H k. rewrite lookup_reduce.
+  rewrite lookup_sum_inv.
+  2:{ apply Forall_forall. intros i Hi. apply in_map_iff in Hi. destruct Hi as [x [<- _]]. apply wf_reduce. }
+  rewrite zsum_map. rewrite esum_sum_inv; [|intros [cur c] n m; simpl;
+    rewrite (Hc cur c (n + m) 0), (Hc cur c n 0), (Hc cur c m 0), Hn; apply delta_add|exact H].
+  apply zsum_ext. intros i _. rewrite lookup_reduce. reflexivity.
+Qed.
